@@ -477,16 +477,12 @@ theorem notany_iff (g : Grammar) (p : P) (nd : Node) (s : List Char) (loc : Nat)
 theorem opt_spec (g : Grammar) (p : P) (nd : Node) (s : List Char) (loc : Nat) (acts : Bool) (x : Nat)
     (d : Option (List Char)) (hk : nd.kind = .opt x d) :
     parseImpl g p nd s loc acts = (match p x loc acts false with
-      | .fail .parse _ => .ok loc (match d with
-          | some v => [.s v]
-          | none => [])
-      | .idx => .ok loc (match d with
-          | some v => [.s v]
-          | none => [])
+      | .fail .parse _ => .ok loc (optDefault g x d)
+      | .idx => .ok loc (optDefault g x d)
       | o => o) := by
   unfold parseImpl
   simp only [hk]
-  cases d <;> cases p x loc acts false <;> first | rfl | (rename_i c l; cases c <;> rfl)
+  cases p x loc acts false <;> first | rfl | (rename_i c l; cases c <;> rfl)
 
 /-- ZeroOrMore: a soft failure of the repetition is the empty match at the location it was called at -/
 theorem zeroOrMore_spec (g : Grammar) (p : P) (nd : Node) (s : List Char) (loc : Nat) (acts : Bool) (x : Nat)
